@@ -1,13 +1,514 @@
-//! C08 — not implemented yet.
+//! C08 — failed / interrupted rotations of the real RollingFileAppender + CompoundPolicy +
+//! FixedWindowRoller, with a scripted trigger.
+//! case: mode(1 append|0 truncate) pre(0|1) pattern base count file init(path:bytes,…)
+//!       ops(a:<bytes>:<0|1> | r | o | u ,…) faults(n:k,…) crash(-|n:k)
+//! observation: per op `res|boundaries|final` joined by `/` (see lean/Driver/C08.lean).
+//!  * faults: `verif_hooks::set_rotate_point` callback returns Err at the k-th step of the n-th
+//!    rotation attempt; `o`/`u` place/remove a non-empty directory at the top archive name (a real
+//!    filesystem failure of the first shift / of the final move when count = 1).
+//!  * crash: at the k-th step boundary of the n-th attempt the directory is copied (crash image);
+//!    the rest of the history runs on the image with a FRESH appender.
+use crate::c07::{compress_for, quiet_stdout, scratch_dir, snapshot, write_file};
+use crate::proto::*;
 use crate::rng::Rng;
+use log4rs::append::rolling_file::policy::compound::{
+    roll::fixed_window::FixedWindowRoller, trigger::Trigger, CompoundPolicy,
+};
+use log4rs::append::rolling_file::{LogFile, RollingFileAppender};
+use log4rs::append::Append;
+use log4rs::encode::pattern::PatternEncoder;
+use std::path::{Path, PathBuf};
+use std::sync::atomic::{AtomicBool, Ordering};
+use std::sync::{Arc, Mutex};
 
-pub fn gen(_rng: &mut Rng, _n: usize, _thorough: bool, _emit: &mut dyn FnMut(String)) {}
-
-pub fn exec(_fields: &[&str]) -> String {
-    "unimplemented".to_owned()
+#[derive(Debug)]
+struct ScriptTrigger {
+    pre: bool,
+    answer: Arc<AtomicBool>,
 }
 
-/// child-process entry point (`verif-harness child c08 …`), for checks that need process-global state
-pub fn child(_args: &[String]) -> i32 {
-    2
+impl Trigger for ScriptTrigger {
+    fn trigger(&self, _file: &LogFile) -> anyhow::Result<bool> {
+        Ok(self.answer.load(Ordering::SeqCst))
+    }
+    fn is_pre_process(&self) -> bool {
+        self.pre
+    }
+}
+
+struct Hook {
+    root: PathBuf,
+    image: PathBuf,
+    step: usize,
+    boundaries: Vec<String>,
+    fail_at: Option<usize>,
+    crash_at: Option<usize>,
+    crash_on_completion: bool,
+    crashed: bool,
+}
+
+fn copy_dir(src: &Path, dst: &Path) {
+    let _ = std::fs::create_dir_all(dst);
+    if let Ok(rd) = std::fs::read_dir(src) {
+        for e in rd.flatten() {
+            let p = e.path();
+            let q = dst.join(e.file_name());
+            if p.is_dir() {
+                copy_dir(&p, &q);
+            } else {
+                let _ = std::fs::copy(&p, &q);
+            }
+        }
+    }
+}
+
+#[derive(Clone)]
+enum Op {
+    Append(String, bool),
+    Restart,
+    Obstacle,
+    Unobstacle,
+}
+
+struct Setup {
+    mode: bool,
+    pre: bool,
+    pattern: String,
+    base: u32,
+    count: u32,
+    file: String,
+}
+
+fn build(root: &Path, s: &Setup, answer: &Arc<AtomicBool>) -> Result<RollingFileAppender, ()> {
+    let roller = FixedWindowRoller::builder()
+        .base(s.base)
+        .build(&format!("{}/{}", root.display(), s.pattern), s.count)
+        .map_err(|_| ())?;
+    let trigger = ScriptTrigger { pre: s.pre, answer: answer.clone() };
+    let policy = CompoundPolicy::new(Box::new(trigger), Box::new(roller));
+    RollingFileAppender::builder()
+        .append(s.mode)
+        .encoder(Box::new(PatternEncoder::new("{m}")))
+        .build(root.join(&s.file), Box::new(policy))
+        .map_err(|_| ())
+}
+
+fn parse_pairs(s: &str) -> Option<Vec<(usize, usize)>> {
+    dec_list(',', s)
+        .iter()
+        .map(|e| {
+            let mut it = e.split(':');
+            match (it.next().and_then(|x| x.parse().ok()), it.next().and_then(|x| x.parse().ok()), it.next()) {
+                (Some(a), Some(b), None) => Some((a, b)),
+                _ => None,
+            }
+        })
+        .collect()
+}
+
+pub fn exec(fields: &[&str]) -> String {
+    if fields.len() != 10 {
+        return "bad-case".to_owned();
+    }
+    let setup = match (
+        fields[0],
+        fields[1],
+        dec_str(fields[2]),
+        fields[3].parse::<u32>(),
+        fields[4].parse::<u32>(),
+        dec_str(fields[5]),
+    ) {
+        (m @ ("0" | "1"), p @ ("0" | "1"), Some(pattern), Ok(base), Ok(count), Some(file)) if count > 0 && pattern.contains("{}") => {
+            Setup { mode: m == "1", pre: p == "1", pattern, base, count, file }
+        }
+        _ => return "bad-case".to_owned(),
+    };
+    let mut init: Vec<(String, Vec<u8>)> = vec![];
+    for e in dec_list(',', fields[6]) {
+        let mut it = e.splitn(2, ':');
+        match (it.next().and_then(dec_str), it.next().and_then(dec_bytes)) {
+            (Some(p), Some(b)) => init.push((p, b)),
+            _ => return "bad-case".to_owned(),
+        }
+    }
+    let mut ops: Vec<Op> = vec![];
+    for e in dec_list(',', fields[7]) {
+        let parts: Vec<&str> = e.split(':').collect();
+        match parts.as_slice() {
+            ["r"] => ops.push(Op::Restart),
+            ["o"] => ops.push(Op::Obstacle),
+            ["u"] => ops.push(Op::Unobstacle),
+            ["a", b, t] => match (dec_bytes(b).and_then(|b| String::from_utf8(b).ok()), *t) {
+                (Some(s), "0") => ops.push(Op::Append(s, false)),
+                (Some(s), "1") => ops.push(Op::Append(s, true)),
+                _ => return "bad-case".to_owned(),
+            },
+            _ => return "bad-case".to_owned(),
+        }
+    }
+    let faults = match parse_pairs(fields[8]) {
+        Some(f) => f,
+        None => return "bad-case".to_owned(),
+    };
+    let crash: Option<(usize, usize)> = if fields[9] == "-" {
+        None
+    } else {
+        match parse_pairs(fields[9]) {
+            Some(v) if v.len() == 1 => Some(v[0]),
+            _ => return "bad-case".to_owned(),
+        }
+    };
+
+    let mut root = scratch_dir("c08");
+    let image = scratch_dir("c08img");
+    for (p, b) in &init {
+        if write_file(&root, p, &compress_for(p, b)).is_err() {
+            let _ = std::fs::remove_dir_all(&root);
+            let _ = std::fs::remove_dir_all(&image);
+            return "bad-case".to_owned();
+        }
+    }
+    let hook = Arc::new(Mutex::new(Hook {
+        root: root.clone(),
+        image: image.clone(),
+        step: 0,
+        boundaries: vec![],
+        fail_at: None,
+        crash_at: None,
+        crash_on_completion: false,
+        crashed: false,
+    }));
+    {
+        let h = hook.clone();
+        log4rs::verif_hooks::set_rotate_point(Some(Arc::new(move |_i: u32| {
+            let mut h = h.lock().unwrap();
+            let snap = snapshot(&h.root);
+            h.boundaries.push(snap);
+            let k = h.step;
+            h.step += 1;
+            if h.crashed {
+                return Err(std::io::Error::new(std::io::ErrorKind::Other, "process is dead"));
+            }
+            if h.crash_at == Some(k) {
+                copy_dir(&h.root.clone(), &h.image.clone());
+                h.crashed = true;
+                return Err(std::io::Error::new(std::io::ErrorKind::Other, "crash"));
+            }
+            if h.fail_at == Some(k) {
+                return Err(std::io::Error::new(std::io::ErrorKind::Other, "injected fault"));
+            }
+            Ok(())
+        })));
+        let h2 = hook.clone();
+        log4rs::verif_hooks::set_critical_section_point(Some(Arc::new(move |tag: &str| {
+            if tag == "rolling:between-policy-and-write" {
+                let mut h = h2.lock().unwrap();
+                if h.crash_on_completion && !h.crashed && h.step > 0 {
+                    copy_dir(&h.root.clone(), &h.image.clone());
+                    h.crashed = true;
+                }
+            }
+        })));
+    }
+
+    let answer = Arc::new(AtomicBool::new(false));
+    let n_steps = setup.count as usize;
+    let top_name = format!("{}", setup.pattern.replace("{}", &(setup.base as u64 + setup.count as u64 - 1).to_string()));
+    let mut out: Vec<String> = vec![];
+    let mut attempts = 0usize;
+    let mut appender = match quiet_stdout(|| guarded(std::panic::AssertUnwindSafe(|| build(&root, &setup, &answer)))) {
+        Ok(Ok(a)) => {
+            out.push(format!("rs:ok|-|{}", snapshot(&root)));
+            Some(a)
+        }
+        _ => {
+            out.push(format!("rs:err|-|{}", snapshot(&root)));
+            None
+        }
+    };
+    for op in &ops {
+        match op {
+            Op::Restart => {
+                drop(appender.take());
+                appender = match quiet_stdout(|| guarded(std::panic::AssertUnwindSafe(|| build(&root, &setup, &answer)))) {
+                    Ok(Ok(a)) => {
+                        out.push(format!("rs:ok|-|{}", snapshot(&root)));
+                        Some(a)
+                    }
+                    _ => {
+                        out.push(format!("rs:err|-|{}", snapshot(&root)));
+                        None
+                    }
+                };
+            }
+            Op::Obstacle => {
+                let top = root.join(&top_name);
+                if top.exists() {
+                    out.push(format!("o:skip|-|{}", snapshot(&root)));
+                } else {
+                    let _ = std::fs::create_dir_all(&top);
+                    let _ = std::fs::write(top.join("obstacle"), b"x");
+                    out.push(format!("o:placed|-|{}", snapshot(&root)));
+                }
+            }
+            Op::Unobstacle => {
+                let top = root.join(&top_name);
+                if top.is_dir() {
+                    let _ = std::fs::remove_dir_all(&top);
+                }
+                out.push(format!("u|-|{}", snapshot(&root)));
+            }
+            Op::Append(msg, ans) => {
+                answer.store(*ans, Ordering::SeqCst);
+                let mut crash_here: Option<usize> = None;
+                {
+                    let mut h = hook.lock().unwrap();
+                    h.step = 0;
+                    h.boundaries.clear();
+                    h.fail_at = None;
+                    h.crash_at = None;
+                    h.crash_on_completion = false;
+                    if *ans {
+                        let n = attempts;
+                        attempts += 1;
+                        h.fail_at = faults.iter().filter(|f| f.0 == n).map(|f| f.1).min();
+                        if let Some((cn, k)) = crash {
+                            if cn == n {
+                                crash_here = Some(k);
+                                if k < n_steps {
+                                    h.crash_at = Some(k);
+                                } else {
+                                    h.crash_on_completion = true;
+                                }
+                            }
+                        }
+                    }
+                }
+                let res = match &appender {
+                    None => "no-appender".to_owned(),
+                    Some(a) => {
+                        let r = quiet_stdout(|| {
+                            guarded(std::panic::AssertUnwindSafe(|| {
+                                a.append(
+                                    &log::Record::builder()
+                                        .level(log::Level::Info)
+                                        .args(format_args!("{}", msg))
+                                        .build(),
+                                )
+                            }))
+                        });
+                        match r {
+                            Ok(Ok(())) => "ok".to_owned(),
+                            Ok(Err(_)) => "err".to_owned(),
+                            Err(_) => "PANIC".to_owned(),
+                        }
+                    }
+                };
+                let (mut crashed, bs) = {
+                    let h = hook.lock().unwrap();
+                    (h.crashed, if h.boundaries.is_empty() { "-".to_owned() } else { h.boundaries.join(";") })
+                };
+                // death right after the last step, post-process trigger: nothing happens between the
+                // roll and the return of append, so the image is the directory as it is now
+                if !crashed && !setup.pre && crash_here.map_or(false, |k| k >= n_steps) && res == "ok" {
+                    copy_dir(&root, &image);
+                    crashed = true;
+                    hook.lock().unwrap().crashed = true;
+                }
+                if crashed {
+                    out.push(format!("crash|{}|{}", bs, snapshot(&image)));
+                    // the old process is gone: forget its appender, continue on the image
+                    drop(appender.take());
+                    let _ = std::fs::remove_dir_all(&root);
+                    root = image.clone();
+                    {
+                        let mut h = hook.lock().unwrap();
+                        h.root = root.clone();
+                        h.crashed = false;
+                        h.crash_at = None;
+                        h.crash_on_completion = false;
+                    }
+                    appender = match quiet_stdout(|| guarded(std::panic::AssertUnwindSafe(|| build(&root, &setup, &answer)))) {
+                        Ok(Ok(a)) => {
+                            out.push(format!("rs:ok|-|{}", snapshot(&root)));
+                            Some(a)
+                        }
+                        _ => {
+                            out.push(format!("rs:err|-|{}", snapshot(&root)));
+                            None
+                        }
+                    };
+                } else {
+                    out.push(format!("{}|{}|{}", res, bs, snapshot(&root)));
+                }
+            }
+        }
+    }
+    drop(appender.take());
+    log4rs::verif_hooks::set_rotate_point(None);
+    log4rs::verif_hooks::set_critical_section_point(None);
+    let _ = std::fs::remove_dir_all(&root);
+    let _ = std::fs::remove_dir_all(&image);
+    enc_list("/", &out)
+}
+
+// ------------------------------------------------------------------------------------------
+// generator
+// ------------------------------------------------------------------------------------------
+fn enc_ops(ops: &[Op]) -> String {
+    let xs: Vec<String> = ops
+        .iter()
+        .map(|o| match o {
+            Op::Append(s, t) => format!("a:{}:{}", enc_bytes(s.as_bytes()), enc_bool(*t)),
+            Op::Restart => "r".to_owned(),
+            Op::Obstacle => "o".to_owned(),
+            Op::Unobstacle => "u".to_owned(),
+        })
+        .collect();
+    enc_list(",", &xs)
+}
+
+struct Hist {
+    mode: bool,
+    pre: bool,
+    pattern: &'static str,
+    base: u32,
+    count: u32,
+    init: Vec<(String, Vec<u8>)>,
+    ops: Vec<Op>,
+}
+
+fn emit_hist(emit: &mut dyn FnMut(String), h: &Hist, faults: &[(usize, usize)], crash: Option<(usize, usize)>) {
+    let init_s: Vec<String> = h.init.iter().map(|(p, b)| format!("{}:{}", enc_str(p), enc_bytes(b))).collect();
+    let f: Vec<String> = faults.iter().map(|(a, b)| format!("{}:{}", a, b)).collect();
+    emit(format!(
+        "{}\t{}\t{}\t{}\t{}\t{}\t{}\t{}\t{}\t{}",
+        enc_bool(h.mode),
+        enc_bool(h.pre),
+        enc_str(h.pattern),
+        h.base,
+        h.count,
+        enc_str("app.log"),
+        enc_list(",", &init_s),
+        enc_ops(&h.ops),
+        enc_list(",", &f),
+        match crash {
+            None => "-".to_owned(),
+            Some((a, b)) => format!("{}:{}", a, b),
+        }
+    ));
+}
+
+fn attempts_of(ops: &[Op]) -> usize {
+    ops.iter().filter(|o| matches!(o, Op::Append(_, true))).count()
+}
+
+fn random_hist(rng: &mut Rng, max_ops: u64, mode: bool, pre: bool, count: u32) -> Hist {
+    let pattern = if rng.chance(1, 6) { "arch/app.{}.log.gz" } else { "app.log.{}" };
+    let base = *rng.pick(&[0u32, 1, 3]);
+    let mut init: Vec<(String, Vec<u8>)> = vec![];
+    match rng.below(4) {
+        0 => {}
+        1 => init.push(("app.log".to_owned(), b"<old-active>".to_vec())),
+        _ => {
+            if rng.chance(1, 2) {
+                init.push(("app.log".to_owned(), b"<old-active>".to_vec()));
+            }
+            for j in 0..count {
+                if rng.chance(2, 3) {
+                    init.push((pattern.replace("{}", &(base + j).to_string()), format!("<old{}>", j).into_bytes()));
+                }
+            }
+            if rng.chance(1, 3) {
+                init.push((pattern.replace("{}", &(base + count).to_string()), b"<above-window>".to_vec()));
+            }
+        }
+    }
+    let n_ops = rng.range(2, max_ops);
+    let mut ops = vec![];
+    for i in 0..n_ops {
+        match rng.below(100) {
+            0..=5 => ops.push(Op::Restart),
+            6..=9 => ops.push(Op::Obstacle),
+            10..=13 => ops.push(Op::Unobstacle),
+            _ => {
+                let mut msg = format!("<{}", i);
+                for _ in 0..rng.below(4) {
+                    msg.push((b'a' + rng.below(26) as u8) as char);
+                }
+                msg.push('>');
+                if rng.chance(1, 25) {
+                    msg.clear();
+                }
+                ops.push(Op::Append(msg, rng.chance(2, 5)));
+            }
+        }
+    }
+    Hist { mode, pre, pattern, base, count, init, ops }
+}
+
+pub fn gen(rng: &mut Rng, n: usize, thorough: bool, emit: &mut dyn FnMut(String)) {
+    // deterministic block: the F10 shape in every configuration — write, write + failed roll at
+    // every step, plain write, successful roll
+    for mode in [true, false] {
+        for pre in [false, true] {
+            for count in 1..=4u32 {
+                let ops = vec![
+                    Op::Append("aaa|".to_owned(), false),
+                    Op::Append("bbb|".to_owned(), true),
+                    Op::Append("ccc|".to_owned(), false),
+                    Op::Append("ddd|".to_owned(), true),
+                    Op::Append("eee|".to_owned(), true),
+                    Op::Append("fff|".to_owned(), false),
+                ];
+                let h = Hist { mode, pre, pattern: "app.log.{}", base: 0, count, init: vec![], ops };
+                emit_hist(emit, &h, &[], None);
+                for a in 0..3usize {
+                    for k in 0..count as usize {
+                        emit_hist(emit, &h, &[(a, k)], None);
+                    }
+                    for k in 0..=count as usize {
+                        emit_hist(emit, &h, &[], Some((a, k)));
+                    }
+                }
+            }
+        }
+    }
+    // random histories; every step of every rotation as point of failure and of death
+    let max_ops = if thorough { 30 } else { 12 };
+    let mut emitted = 0usize;
+    while emitted < n {
+        let mode = rng.chance(1, 2);
+        let pre = rng.chance(1, 2);
+        let count = rng.range(1, 4) as u32;
+        let h = random_hist(rng, max_ops, mode, pre, count);
+        let a = attempts_of(&h.ops);
+        emit_hist(emit, &h, &[], None);
+        emitted += 1;
+        for n_att in 0..a {
+            for k in 0..count as usize {
+                emit_hist(emit, &h, &[(n_att, k)], None);
+                emitted += 1;
+            }
+            for k in 0..=count as usize {
+                emit_hist(emit, &h, &[], Some((n_att, k)));
+                emitted += 1;
+            }
+        }
+        // several faults in one history (the same step of consecutive rotations, or random ones)
+        if a >= 2 {
+            let mut fs: Vec<(usize, usize)> = vec![];
+            for n_att in 0..a {
+                if rng.chance(1, 2) {
+                    fs.push((n_att, rng.below(count as u64) as usize));
+                }
+            }
+            if !fs.is_empty() {
+                emit_hist(emit, &h, &fs, None);
+                let crash_n = rng.below(a as u64) as usize;
+                emit_hist(emit, &h, &fs, Some((crash_n, rng.range(0, count as u64) as usize)));
+                emitted += 2;
+            }
+        }
+    }
 }
